@@ -27,6 +27,10 @@ CHECKS = {
    "PARTIAL: decides the two non-statistical clauses only. (i) the estimate is sampled after every event of every gossip run and must not decrease; (ii) the parallel estimator equals the sketcher's own estimate within a proven rounding bound under a seeded rayon stub (split tree chosen by the PRNG, replayable) and under real rayon pools of 1,2,3,5,8,16 threads. The accuracy/bias/spread clauses are statements about a distribution over hash randomness and are NOT decided here",
    "rounding bound (4m+8)*2^-53 relative for two summation orders of m positive terms; real-rayon order is observed, not controlled (the bound is order free); statistical clauses undecided",
    TECH + ": seeded reduction-tree schedules through a rayon stub + monotonicity invariant during gossip runs"),
+ "C20": ("fault_enumeration",
+   "every byte offset of every generated parameter file (and 'before open') is enumerated as crash point, both by truncation in-process and by really killing a child process mid-write through an LD_PRELOAD syscall shim; short writes, short reads, EINTR and ENOSPC are injected; successive dumps of different length into one directory; oracle = model of the durable file content (old file / new file / proper prefix) deciding what reload may return; parameter tuples are sampled",
+   "torn-write crash model (any prefix of the write stream may be durable); finite positive a, b; the 15-digit / 1-ulp rule of the statement",
+   TECH + ": crash-point enumeration with a syscall fault-injection shim, durable-content model"),
  "C09": ("exploration",
    "seeded histories over sketch / sketch_slice / end_sketch / reinit with double finish, late items, empty stream and mid-stream restart; state read through the guarded hook before and after every finishing step (populated bins untouched, filled bins copy a populated pair, all bins populated, views consistent, idempotence, slice == item-wise + finish); bounded liveness through a step budget in the densify loops",
    "step budget formula in DESIGN.md 6/C09; end_sketch has no return channel so a panic or a visibly unfinished sketch counts as 'failure reported'",
